@@ -1293,6 +1293,36 @@ struct VarDriver : DriverBase<VarDriver<Ts...>> {
                 ctx.violation("C07", "diff:variant:visit", "visit did not call the visitor exactly once with the active alternative");
                 return;
             }
+            // visit together with a variant that has exactly one alternative, in both argument orders, and with two of
+            // them: the dispatch must still go by the index of the variant that has a choice
+            {
+                etl::variant<short> const one(static_cast<short>(7));
+                etl::variant<long> const uno(9L);
+                std::vector<int> s1;
+                std::vector<int> s2;
+                std::vector<int> s3;
+                s1.reserve(16);
+                s2.reserve(16);
+                s3.reserve(16);
+                int r1 = 0;
+                int r2 = 0;
+                int r3 = 0;
+                if (!observe("visit-with-single-alternative-variant", [&] {
+                        r1 = etl::visit(Visitor{&s1}, one, a);
+                        r2 = etl::visit(Visitor{&s2}, a, one);
+                        r3 = etl::visit(Visitor{&s3}, one, a, uno);
+                    })) {
+                    return;
+                }
+                int const val = model[x].value;
+                bool const ok1 = s1.size() == 4 && s1[0] == 7 && s1[1] == val && s1[3] == tagOfIndex && r1 == val + 7;
+                bool const ok2 = s2.size() == 4 && s2[0] == val && s2[1] == 7 && s2[2] == tagOfIndex && r2 == val + 7;
+                bool const ok3 = s3.size() == 6 && s3[0] == 7 && s3[1] == val && s3[2] == 9 && s3[4] == tagOfIndex && r3 == val + 16;
+                if (!ok1 || !ok2 || !ok3) {
+                    ctx.violation("C07", "diff:variant:visit-mixed-arity", "a visit over this variant and a single-alternative variant did not see the active alternative");
+                    return;
+                }
+            }
             // visiting an rvalue variant must hand the visitor an rvalue of the active alternative, whatever its index
             if constexpr (copyable) {
                 int category = 0;
